@@ -197,3 +197,18 @@ Definition C10_check := check_with (fun c r =>
 
 Definition C11_check := check_with (fun c r =>
   with_parent (fun p => orelse (C11_round c p (r_events r) (r_result r)) (C11_attempted c p (r_events r))) r) proj_parent true.
+
+(* C13: no answer makes the worker panic; a rejected answer causes no child write *)
+Definition C13_round (c : ccfg) (r : round) : option string :=
+  match r_result r with
+  | SPanic => Some "panic"
+  | SErr =>
+      match hook_events (r_events r), round_desired c (r_events r) with
+      | _ :: _, None =>
+          if child_write_seen c (r_events r) then Some "child-write-after-rejected-response" else None
+      | _, _ => None
+      end
+  | _ => None
+  end.
+Definition proj_none (c : ccfg) (p : json) (cl : call) : bool := false.
+Definition C13_check := check_with C13_round proj_child_writes true.
